@@ -78,11 +78,12 @@ func enumTexts(alphabet []rune, minLen, maxLen int, f func(idx int, t []rune) bo
 }
 
 type wrapEnv struct {
-	r    *mc.Reporter
-	laws lawSet
-	seg  segmenter.Segmenter
-	lw   shaping.LineWrapper
-	prop string
+	primaryIter int // iterator mode of the primary axes in this shard (odd shards: one reused iterator object)
+	r           *mc.Reporter
+	laws        lawSet
+	seg         segmenter.Segmenter
+	lw          shaping.LineWrapper
+	prop        string
 }
 
 func (e *wrapEnv) one(c *wCase, p *mPara) {
@@ -186,7 +187,7 @@ func (e *wrapEnv) structure(t []rune, runs []wRun, wt *wrapTier, multi bool) {
 		for pd := 0; pd < 2; pd++ {
 			for _, w := range ws {
 				c := base
-				c.Policy, c.PDir, c.Widths = pol, pd, []int{w}
+				c.Policy, c.PDir, c.Widths, c.Iter = pol, pd, []int{w}, e.primaryIter
 				e.one(&c, p)
 			}
 		}
@@ -288,6 +289,73 @@ func (e *wrapEnv) structure(t []rune, runs []wRun, wt *wrapTier, multi bool) {
 	}
 }
 
+// long paragraphs: 24 and 60 words of narrow, normal and wide letters (proportional advances), as one run, as runs of
+// two clusters and as one run per word and per space (119 runs: more than the 100 outputs the wrapper keeps inline),
+// x directions x policies x widths from one word to several words per line x letter spacing x drivers x iterators
+func (e *wrapEnv) long(part int) {
+	words := []string{"iWi", "a", "WW", "iiia", "Wa", "i", "aWaW", "ia"}
+	for _, nw := range []int{24, 60} {
+		var t []rune
+		var wordRuns []wRun
+		for k := 0; k < nw; k++ {
+			if k > 0 {
+				t = append(t, ' ')
+				wordRuns = append(wordRuns, wRun{Clusters: []wCluster{{1, 1}}})
+			}
+			w := []rune(words[(k*3+k/8)%len(words)])
+			t = append(t, w...)
+			var cl []wCluster
+			for range w {
+				cl = append(cl, wCluster{1, 1})
+			}
+			wordRuns = append(wordRuns, wRun{Clusters: cl})
+		}
+		var one, pairs []wCluster
+		for range t {
+			one = append(one, wCluster{1, 1})
+		}
+		var pairRuns []wRun
+		for i := 0; i < len(t); i += 2 {
+			n := 2
+			if i+2 > len(t) {
+				n = len(t) - i
+			}
+			pairs = nil
+			for j := 0; j < n; j++ {
+				pairs = append(pairs, wCluster{1, 1})
+			}
+			pairRuns = append(pairRuns, wRun{Clusters: pairs})
+		}
+		structures := [][]wRun{{{Dir: 0, Clusters: one}}, {{Dir: 1, Clusters: one}}, wordRuns, pairRuns}
+		idx := 0
+		for _, runs := range structures {
+			for pol := 0; pol < 3; pol++ {
+				for _, w := range []int{20, 33, 47, 75, 110, 180} {
+					for _, lsp := range []int{0, 2 << 6} {
+						for drv := 0; drv < 2; drv++ {
+							for it := 0; it < 3; it++ {
+								idx++
+								if idx%8 != part || e.r.Expired() {
+									continue
+								}
+								c := &wCase{Text: t, Runs: runs, Widths: []int{w}, Policy: pol, PDir: runs[0].Dir, LetterSp: lsp, Driver: drv, Iter: it}
+								if drv == 1 {
+									c.Widths = []int{w, w}
+								}
+								if it == 0 {
+									e.lw = shaping.LineWrapper{} // a wrapper whose inline buffers have never grown
+								}
+								e.one(c, nil)
+							}
+						}
+					}
+				}
+			}
+		}
+	}
+	e.r.Count("long_paragraph_parts", 1)
+}
+
 // widthSeq builds a per-line width sequence: kind 1 constant through WrapNextLine, 2 decreasing, 3 alternating 0/wide
 func widthSeq(kind, w int, ws []int) []int {
 	switch kind {
@@ -305,6 +373,9 @@ func wrapRun(prop string, laws lawSet) func(tier, shard string, r *mc.Reporter) 
 		sh, _ := strconv.Atoi(shard)
 		wt := wrapTierFor(tier)
 		e := &wrapEnv{r: r, laws: laws, prop: prop}
+		if sh%2 == 1 {
+			e.primaryIter = 2
+		}
 		run := func(wt *wrapTier, minLen int) {
 			// consecutive blocks of the length-lexicographic order: completed shards form a prefix of it
 			total := 0
@@ -330,6 +401,9 @@ func wrapRun(prop string, laws lawSet) func(tier, shard string, r *mc.Reporter) 
 				e.text(t, wt)
 				return true
 			})
+		}
+		if sh >= wrapShards-8 {
+			e.long(sh - (wrapShards - 8))
 		}
 		run(wt, 0)
 		if wt.extra != nil && !r.Expired() {
